@@ -43,6 +43,41 @@ def run(p: Project, tier: str) -> Result:
     return r
 
 
+EDGE_CLASS_NAMES = ('Buffer', 'Fleet', 'ConveyorBelt')
+
+
+def edge_class_tag(pa, ev) -> str:
+    """the edge class(es) the path has established for the edge at hand when `ev` happens (`x.__class__.__name__ == 'ConveyorBelt'`,
+    `... in ('Buffer', 'Fleet')`, isinstance tests), whatever the spelling or the order of the branches; '' when there is no such dispatch"""
+    allowed = set(EDGE_CLASS_NAMES)
+    seen = False
+    for e in pa.events:
+        if e is ev:
+            break
+        if e.kind != 'cond' or e.d.get('synthetic') or '__name__' not in e.text:
+            continue
+        ops = e.d.get('operands')
+        if not ops:
+            continue
+        names = None
+        for side in (ops[1], ops[2]):
+            if side is None:
+                continue
+            if side[0] == 'const' and side[1] in EDGE_CLASS_NAMES:
+                names = {side[1]}
+            elif side[0] in ('tuple', 'list') and all(x[0] == 'const' for x in side[1]):
+                names = {x[1] for x in side[1]} & set(EDGE_CLASS_NAMES)
+        if not names:
+            continue
+        positive = ops[0] in ('Eq', 'In', 'Is')
+        seen = True
+        if positive == bool(e.polarity):
+            allowed &= names
+        else:
+            allowed -= names
+    return '|'.join(sorted(allowed)) if seen and allowed else ''
+
+
 def check_tokens(r, w, root, fi, ps):
     tok_sites = {}
     loop_sites = {}
@@ -56,8 +91,14 @@ def check_tokens(r, w, root, fi, ps):
             bad_events.setdefault(id(ev), (ev, msg))
         for t in rep.toks:
             e = t.ev
-            key = site(e.fi, e.node, f'token-list:{e.name}' if t.is_list else f'token:{e.name}',
-                       same=lambda n, nm=e.name: isinstance(n, ast.Call) and isinstance(n.func, ast.Attribute) and n.func.attr == nm)
+            tag = edge_class_tag(pa, e)
+            if tag and not t.is_list:
+                # a reservation made under a dispatch on the edge class is named after that class, not after its position in the source:
+                # swapping the branches of the dispatch must not turn one site into another
+                key = f'{e.fi.key}::token:{e.name}[{tag}]'
+            else:
+                key = site(e.fi, e.node, f'token-list:{e.name}' if t.is_list else f'token:{e.name}',
+                           same=lambda n, nm=e.name: isinstance(n, ast.Call) and isinstance(n.func, ast.Attribute) and n.func.attr == nm)
             rec = tok_sites.setdefault(key, {'ok': True, 'e': e, 'pa': pa, 'msg': ''})
             if id(e) in bad_events and rec['ok']:
                 rec.update(ok=False, pa=pa, msg=bad_events[id(e)][1])
